@@ -546,6 +546,8 @@ class Array:
             startindex = 0
         if endindex is None:
             endindex = self.shape[0]
+        if startindex < 0:
+            raise ValueError("startindex should be 0 or higher")
         if endindex > self.shape[0]:
             raise ValueError("endindex is too high")
         if startindex >= endindex:
